@@ -4,36 +4,94 @@ From Falcon.C07 Require Import Model Spec ProofsLib ProofsA ProofsA2 ProofsA3.
 Import ListNotations.
 Open Scope Z_scope.
 
-Fixpoint lives (live : bool) (ops : list aop) : bool :=
-  match ops with [] => live | op :: tl => lives (a_live_after live op) tl end.
-Fixpoint noexs (noex : bool) (ops : list aop) : bool :=
-  match ops with [] => noex | op :: tl => noexs (a_noex_after noex op) tl end.
+(* the consumed part of the declared body a history ends with *)
+Fixpoint consumed_run (D c : bytes) (ops : list aop) (tr : list (ares * ast)) : bytes :=
+  match ops, tr with
+  | op :: ops', (r, _) :: tr' => consumed_run D (consumed_after D c op r) ops' tr'
+  | _, _ => c
+  end.
 
-Lemma lives_keep ops : forallb keeps_data ops = true -> lives true ops = true.
+Lemma cursor_consumed' D dl op r : cursor_after D (len dl) op r = len (consumed_after D dl op r).
 Proof.
-  induction ops as [|op ops IH]; [reflexivity|]. cbn [forallb lives]. intro H.
-  apply andb_true_iff in H as [H1 H2]. destruct op; try discriminate; apply IH; exact H2.
+  unfold cursor_after, consumed_after.
+  destruct op; try (rewrite len_app; reflexivity).
+  destruct r; try (rewrite len_app; reflexivity). reflexivity.
 Qed.
 
-Lemma noexs_keep ops : forallb not_exhaust ops = true -> noexs true ops = true.
+Lemma len_consumed_run D : forall ops tr c,
+  len (consumed_run D c ops tr) = acursor D (len c) ops tr.
 Proof.
-  induction ops as [|op ops IH]; [reflexivity|]. cbn [forallb noexs]. intro H.
-  apply andb_true_iff in H as [H1 H2]. destruct op; try discriminate; apply IH; exact H2.
+  induction ops as [|op ops IH]; intros tr c; [reflexivity|].
+  destruct tr as [|[r st] tr]; [reflexivity|]. cbn [consumed_run acursor].
+  rewrite IH, cursor_consumed'. reflexivity.
 Qed.
 
-Lemma arun_inv D : forall ops dl live noex st,
-  AInv D dl live noex st -> disciplined ops st = true ->
-  AInv D (dl ++ abytes (arun true ops st)) (lives live ops) (noexs noex ops)
-       (aend (arun true ops st) st).
+Lemma arun_length f : forall ops st, length (arun f ops st) = length ops.
 Proof.
-  induction ops as [|op ops IH]; intros dl live noex st I DS.
-  - cbn. rewrite app_nil_r. exact I.
+  induction ops as [|op ops IH]; intros st; [reflexivity|].
+  cbn [arun]. destruct (astep f op st). cbn [length]. rewrite IH. reflexivity.
+Qed.
+
+Lemma acursor_no_exhaust D : forall ops tr p,
+  length tr = length ops -> forallb not_exhaust ops = true ->
+  acursor D p ops tr = p + len (abytes tr).
+Proof.
+  induction ops as [|op ops IH]; intros tr p L H.
+  - destruct tr; [|discriminate]. unfold abytes. cbn. lia.
+  - destruct tr as [|[r st] tr]; [discriminate|]. injection L as L.
+    cbn [forallb] in H. apply andb_true_iff in H as [H1 H2].
+    cbn [acursor]. rewrite (IH _ _ L H2). unfold abytes. cbn [map concat fst].
+    rewrite len_app. unfold cursor_after. destruct op; try lia. discriminate.
+Qed.
+
+Lemma arun_inv D : forall ops c st,
+  AInv D c st -> disciplined ops st = true ->
+  AInv D (consumed_run D c ops (arun true ops st)) (aend (arun true ops st) st).
+Proof.
+  induction ops as [|op ops IH]; intros c st I DS.
+  - exact I.
   - cbn [disciplined] in DS. apply andb_true_iff in DS as [DS1 DS2].
     apply negb_true_iff in DS1.
     cbn [arun]. destruct (astep true op st) as [r st1] eqn:S. cbn [snd] in DS2.
-    destruct (astep_ok _ _ _ _ _ _ _ _ I DS1 S) as (I1 & _).
-    unfold abytes. cbn [map concat aend fst lives noexs]. fold (abytes (arun true ops st1)).
-    rewrite app_assoc. apply IH; assumption.
+    destruct (astep_ok _ _ _ _ _ _ I DS1 S) as (I1 & _).
+    cbn [consumed_run aend]. apply IH; assumption.
+Qed.
+
+(* the bytes returned, in call order, are a prefix of what was consumed *)
+Lemma consumed_run_bytes D : forall ops c st,
+  AInv D c st -> disciplined ops st = true ->
+  exists s, consumed_run D c ops (arun true ops st) = c ++ abytes (arun true ops st) ++ s.
+Proof.
+  induction ops as [|op ops IH]; intros c st I DS.
+  - exists []. unfold abytes. cbn. rewrite app_nil_r. reflexivity.
+  - pose proof (arun_inv D (op :: ops) c st I DS) as IF.
+    cbn [disciplined] in DS. apply andb_true_iff in DS as [DS1 DS2].
+    apply negb_true_iff in DS1.
+    cbn [arun] in *. destruct (astep true op st) as [r st1] eqn:S. cbn [snd] in DS2.
+    destruct (astep_ok _ _ _ _ _ _ I DS1 S) as (I1 & _).
+    cbn [consumed_run aend] in *. unfold abytes. cbn [map concat fst]. fold (abytes (arun true ops st1)).
+    destruct (IH _ _ I1 DS2) as [s E].
+    assert (GEN : consumed_after D c op r = c ++ ares_bytes r ->
+                  exists s0, consumed_run D (consumed_after D c op r) ops (arun true ops st1)
+                             = c ++ (ares_bytes r ++ abytes (arun true ops st1)) ++ s0).
+    { intro CA. exists s. rewrite E, CA, <- !app_assoc. reflexivity. }
+    unfold consumed_after in *. destruct op; try (apply GEN; reflexivity).
+    destruct r; try (apply GEN; reflexivity).
+    (* a successful exhaust(): everything is consumed, nothing more can be returned *)
+    cbn [ares_bytes app]. destruct (ai_pre _ _ _ IF) as [rest PR]. rewrite E in PR.
+    rewrite <- (app_nil_r D) in PR at 1. rewrite <- !app_assoc in PR. apply app_inv_head in PR.
+    symmetry in PR. apply app_eq_nil in PR as [A1 PR]. apply app_eq_nil in PR as [A2 _].
+    rewrite E, A1, A2, !app_nil_r. destruct (ai_pre _ _ _ I) as [rest0 P0].
+    exists rest0. cbn [app]. exact P0.
+Qed.
+
+Lemma eof_stays : forall ops st,
+  a_eof st = true -> abytes (arun true ops st) = [] /\ a_eof (aend (arun true ops st) st) = true.
+Proof.
+  induction ops as [|op ops IH]; intros st E; [split; [reflexivity | exact E]|].
+  cbn [arun]. destruct (astep true op st) as [r st1] eqn:S.
+  destruct (eof_no_bytes _ _ _ _ E S) as [B E1]. destruct (IH st1 E1) as [B2 E2].
+  unfold abytes in *. cbn [map concat fst aend]. rewrite B, B2. split; [reflexivity | exact E2].
 Qed.
 
 Section History.
@@ -46,35 +104,74 @@ Section History.
   Let tr := arun true ops st0.
   Let D := a_declared first cl events.
 
-  Lemma hist_inv : AInv D (abytes tr) (lives true ops) (noexs true ops) (aend tr st0).
+  Lemma hist_inv : AInv D (consumed_run D [] ops tr) (aend tr st0).
   Proof.
     destruct (AInv_init first cl events Hwf Hcl) as (I & _).
-    exact (arun_inv _ ops [] true true st0 I Hdis).
+    exact (arun_inv _ ops [] st0 I Hdis).
   Qed.
 
+  (* returned bytes, in call order, are a prefix of the declared body: ALL histories *)
   Theorem asgi_prefix : exists rest, D = abytes tr ++ rest.
-  Proof. exact (ai_pre _ _ _ _ _ hist_inv). Qed.
+  Proof.
+    destruct (AInv_init first cl events Hwf Hcl) as (I & _).
+    destruct (consumed_run_bytes D ops [] st0 I Hdis) as [s E].
+    destruct (ai_pre _ _ _ hist_inv) as [rest PR]. unfold tr in PR. rewrite E in PR.
+    cbn [app] in PR. exists (s ++ rest). rewrite PR, <- app_assoc. reflexivity.
+  Qed.
 
+  (* tell() is the cursor: bytes returned plus bytes skipped by exhaust(): ALL histories *)
+  Theorem asgi_tell_cursor : pos (aend tr st0) = acursor D 0 ops tr.
+  Proof. rewrite (ai_tell _ _ _ hist_inv), len_consumed_run. reflexivity. Qed.
+
+  (* ... in particular the number of bytes returned when exhaust() was not used *)
   Theorem asgi_tell_exact :
     forallb not_exhaust ops = true -> pos (aend tr st0) = len (abytes tr).
-  Proof. intro H. apply (ai_tell _ _ _ _ _ hist_inv). apply noexs_keep. exact H. Qed.
-
-  Theorem asgi_tell_ge : len (abytes tr) <= pos (aend tr st0).
-  Proof. exact (ai_tell_le _ _ _ _ _ hist_inv). Qed.
-
-  Theorem asgi_eof_complete :
-    forallb keeps_data ops = true -> a_eof (aend tr st0) = true -> abytes tr = D.
   Proof.
-    intros H E. pose proof (ai_live _ _ _ _ _ hist_inv (lives_keep _ H)) as DL.
-    destruct (eof_inv _ E) as [B R].
-    rewrite B, R, (takeZ_nonpos 0), !app_nil_r in DL by lia. symmetry. exact DL.
+    intro H. rewrite asgi_tell_cursor, acursor_no_exhaust; [lia | apply arun_length | exact H].
   Qed.
 
+  (* and it never exceeds the declared body *)
+  Theorem asgi_tell_le_declared : len (abytes tr) <= pos (aend tr st0) <= len D.
+  Proof.
+    destruct (AInv_init first cl events Hwf Hcl) as (I & _).
+    destruct (consumed_run_bytes D ops [] st0 I Hdis) as [s E].
+    destruct (ai_pre _ _ _ hist_inv) as [rest PR].
+    rewrite (ai_tell _ _ _ hist_inv). split.
+    - unfold tr. rewrite E. cbn [app]. rewrite len_app. pose proof (len_nonneg s). lia.
+    - rewrite PR at 2. rewrite len_app. pose proof (len_nonneg rest). lia.
+  Qed.
+
+  (* eof on an open stream means the cursor is at the end of the declared body: everything
+     was returned or explicitly skipped by exhaust(): ALL histories *)
+  Theorem asgi_eof_cursor :
+    a_eof (aend tr st0) = true -> closed (aend tr st0) = false ->
+    consumed_run D [] ops tr = D /\ pos (aend tr st0) = len D.
+  Proof.
+    intros E C. pose proof (ai_open _ _ _ hist_inv C) as DL.
+    destruct (eof_inv _ E) as [B R].
+    rewrite B, R, (takeZ_nonpos 0), !app_nil_r in DL by lia.
+    split; [symmetry; exact DL|]. rewrite (ai_tell _ _ _ hist_inv), <- DL. reflexivity.
+  Qed.
+
+  (* ... hence, when nothing was skipped, the whole declared body was returned *)
+  Theorem asgi_eof_complete :
+    forallb not_exhaust ops = true ->
+    a_eof (aend tr st0) = true -> closed (aend tr st0) = false -> abytes tr = D.
+  Proof.
+    intros NX E C. destruct (asgi_eof_cursor E C) as [_ P]. rewrite (asgi_tell_exact NX) in P.
+    destruct asgi_prefix as [rest PR]. rewrite PR, len_app in P.
+    assert (len rest = 0) by lia. apply len_zero in H. subst rest. rewrite app_nil_r in PR.
+    symmetry. exact PR.
+  Qed.
+
+  (* once eof is reported, whatever is done next returns nothing and eof stays reported
+     (this is what eof means after close(), too) *)
+
   Theorem asgi_disconnect_terminates : late (nt (aend tr st0)) = 0.
-  Proof. destruct (ai_net _ _ _ _ _ hist_inv) as (_ & L & _). exact L. Qed.
+  Proof. destruct (ai_net _ _ _ hist_inv) as (_ & L & _). exact L. Qed.
 
   Theorem asgi_no_receive_beyond_content_length : over (nt (aend tr st0)) = 0.
-  Proof. destruct (ai_net _ _ _ _ _ hist_inv) as (_ & _ & O & _). exact O. Qed.
+  Proof. destruct (ai_net _ _ _ hist_inv) as (_ & _ & O & _). exact O. Qed.
 
   Theorem asgi_sized_le : forall n r st',
     0 < n -> gsusp (gen (aend tr st0)) = false ->
@@ -83,7 +180,7 @@ Section History.
     intros n r st' Hn G S.
     assert (DS : gsusp (gen (aend tr st0)) && sized_read (ARead (Some n)) = false)
       by (rewrite G; reflexivity).
-    destruct (astep_ok _ _ _ _ _ _ _ _ hist_inv DS S) as (_ & SZ & _).
+    destruct (astep_ok _ _ _ _ _ _ hist_inv DS S) as (_ & SZ & _).
     unfold a_sized_ok in SZ. destruct (Z.eqb_spec n (-1)); [lia|]. cbn [orb] in SZ.
     apply Z.leb_le in SZ. lia.
   Qed.
@@ -94,8 +191,33 @@ Section History.
     astep true op (aend tr st0) = (ABytes [], st') -> a_eof st' = true.
   Proof.
     intros op st' A DS S.
-    destruct (astep_ok _ _ _ _ _ _ _ _ hist_inv DS S) as (_ & _ & EM & _).
+    destruct (astep_ok _ _ _ _ _ _ hist_inv DS S) as (_ & _ & EM & _).
     exact (EM A eq_refl).
+  Qed.
+
+  (* exhaust() on an open stream moves the cursor to the end and reports eof;
+     close() reports eof and closed, and leaves tell() where it was *)
+  Theorem asgi_exhaust_to_end : forall r st',
+    closed (aend tr st0) = false ->
+    astep true AExhaust (aend tr st0) = (r, st') ->
+    r = ANone /\ pos st' = len D /\ a_eof st' = true /\ closed st' = false.
+  Proof.
+    intros r st' C S. cbn [astep] in S. unfold a_exhaust in S. rewrite C in S.
+    destruct (exhaust_loop _ _ _ _ _) as [[g r1] p] eqn:L. injection S as <- <-.
+    pose proof hist_inv as I.
+    assert (S2 : astep true AExhaust (aend tr st0) = (ANone, set_core (aend tr st0) [] 0 p g)).
+    { cbn [astep]. unfold a_exhaust. rewrite C, L. reflexivity. }
+    assert (DS : gsusp (gen (aend tr st0)) && sized_read AExhaust = false) by apply andb_false_r.
+    destruct (astep_ok _ _ _ _ _ _ I DS S2) as (I1 & _).
+    split; [reflexivity|]. split; [exact (ai_tell _ _ _ I1)|]. split; [reflexivity | exact C].
+  Qed.
+
+  Theorem asgi_close_semantics :
+    let st := aend tr st0 in
+    closed (a_close st) = true /\ a_eof (a_close st) = true /\ pos (a_close st) = pos st.
+  Proof. cbv zeta. unfold a_close. destruct (closed (aend tr st0)) eqn:C.
+    - destruct (ai_closed _ _ _ hist_inv C) as [B R]. repeat split; [exact C | apply eof_dead; assumption].
+    - repeat split.
   Qed.
 End History.
 
@@ -133,4 +255,31 @@ Proof.
   exists None, (Some 10), [Req (Some (repeat 120%N 20)) false], 3.
   eexists. eexists. split; [reflexivity|]. split; [lia|]. split; [vm_compute; reflexivity|].
   vm_compute. reflexivity.
+Qed.
+
+(* exhaust() as found: the discarded look-ahead buffer is not counted (tell() stays 2 although
+   the 4-byte body is over and eof is reported) ... *)
+Theorem asgi_exhaust_tell_refuted_before_fix :
+  exists first cl events ops,
+    wfb (first_events first ++ events) = true /\ (forall n, cl = Some n -> 0 <= n) /\
+    let st0 := a_init false first cl events in
+    let tr := arun false ops st0 in
+    a_eof (aend tr st0) = true /\ closed (aend tr st0) = false /\
+    pos (aend tr st0) <> len (a_declared first cl events).
+Proof.
+  exists None, (Some 4), [Req (Some [97; 98; 99; 100]%N) false], [ARead (Some 2); AExhaust].
+  split; [reflexivity|]. split; [intros n [= <-]; lia|]. vm_compute.
+  split; [reflexivity|]. split; [reflexivity | discriminate].
+Qed.
+
+(* ... and an oversized chunk is counted in full (tell() is 8 for a 4-byte declared body) *)
+Theorem asgi_exhaust_oversized_refuted_before_fix :
+  exists first cl events ops,
+    wfb (first_events first ++ events) = true /\ (forall n, cl = Some n -> 0 <= n) /\
+    let st0 := a_init false first cl events in
+    let tr := arun false ops st0 in
+    len (a_declared first cl events) < pos (aend tr st0).
+Proof.
+  exists None, (Some 4), [Req (Some (repeat 120%N 8)) false], [AExhaust].
+  split; [reflexivity|]. split; [intros n [= <-]; lia|]. vm_compute. reflexivity.
 Qed.
